@@ -89,6 +89,18 @@ func (server *SugarDB) Flush(database int) {
 		return
 	}
 
+	// The flushed keys no longer count towards the memory used.
+	for db, data := range server.store {
+		if database != -1 && db != database {
+			continue
+		}
+		for key, entry := range data {
+			if mem, err := entry.GetMem(); err == nil {
+				server.memUsed -= mem + int64(unsafe.Sizeof(key)) + int64(len(key))
+			}
+		}
+	}
+
 	if database == -1 {
 		for db, _ := range server.store {
 			// Clear db store.
